@@ -113,9 +113,16 @@ type corruptStats struct {
 func runCorrupt(r *ev.Run, target string, sigPrefix string) (*corruptStats, int) {
 	mk := corruptTargets[target]
 	quick := r.Quick()
-	t := mk(quick)
-	n := t.Count(quick)
 	st := &corruptStats{outcomes: map[string]int{}}
+	var t corruptTarget
+	// building the base images and walking the CLEAN ones (to learn which bytes the reader consumes) runs library code
+	// too: a panic there is a finding about the unchanged image, not an infrastructure failure
+	if pm := guard(func() { t = mk(quick) }); pm != "" {
+		r.Report(sigPrefix+"|clean-image|"+pm, "building or reading a clean, uncorrupted base image panicked: "+pm, map[string]any{"target": target, "tier": r.Tier})
+		r.Capped = true
+		return st, 0
+	}
+	n := t.Count(quick)
 	vmc := os.Getenv("VERIF_VMC")
 	if vmc == "" {
 		vmc, _ = os.Executable()
